@@ -43,6 +43,13 @@
 // socket} or by a middleware in front of the httpgrpc handler, with and
 // without TLS, unary and streaming: the handler's peer reports that address,
 // and TLS info on TLS.
+//
+// Plus THE CONTEXT OF THE CALL (callctx.go): the caller's context {without,
+// with} a deadline (with one the HTTP client sends GRPC-Timeout and the server
+// builds the handler's context on a timeout) x metadata travelling with the
+// call {none, caller's, caller's + credential's} x who reads the peer {the
+// handler, a server interceptor in front of it as well} on every transport and
+// kind: the peer is there, with address and TLS info, in every member.
 package main
 
 import (
@@ -109,6 +116,9 @@ type caseT struct {
 	// sees it: what the server listens on and whether a middleware in front of
 	// the httpgrpc handler has replaced Request.RemoteAddr (arrive.go)
 	Arrive *arriveT `json:"arrive,omitempty"`
+	// Call, when set, says what the caller's context is like (a deadline) and
+	// whether a server interceptor reads the peer too (callctx.go)
+	Call *callCtxT `json:"call_context,omitempty"`
 }
 
 // mergeT: the logical metadata is always caller {a:[1,2], shared:[caller-v(,caller-w)]}
@@ -314,6 +324,7 @@ type seen struct {
 	addr    string
 	addrNil bool
 	auth    string // "", "tls", "tls-incomplete", or the AuthType of something else
+	dl      bool   // the context had a deadline
 }
 
 // connID identifies a TLS connection: keying material exported for a fixed
@@ -372,6 +383,7 @@ func (s *seen) record(ctx context.Context) {
 	s.n++
 	md, _ := metadata.FromIncomingContext(ctx)
 	s.md = md.Copy()
+	_, s.dl = ctx.Deadline()
 	p, ok := peer.FromContext(ctx)
 	s.peerOK = ok
 	if ok {
@@ -571,6 +583,14 @@ type obsT struct {
 	Reply      string   `json:"reply,omitempty"`
 	hPeerNil   bool
 	err        error
+	// call-context grammar (callctx.go): did the handler's context have a
+	// deadline; what the server interceptor found
+	HDeadline bool   `json:"handler_ctx_has_deadline,omitempty"`
+	IRan      int    `json:"server_interceptor_ran,omitempty"`
+	IPeerOK   bool   `json:"server_interceptor_peer_present,omitempty"`
+	IPeerAddr string `json:"server_interceptor_peer_addr,omitempty"`
+	IPeerAuth string `json:"server_interceptor_peer_auth,omitempty"`
+	iPeerNil  bool
 	// connID of the TLS connection as the HTTP server saw it, and of the TLS
 	// info in the grpc.Peer target ("" when unknown); different per run, so not
 	// part of any report
@@ -619,7 +639,11 @@ func runCtx(e *env, c caseT, base context.Context, tgs []*targetSet) (o obsT) {
 		o.Panic = "checker: " + err.Error()
 		return
 	}
-	s := &seen{}
+	if err := c.Call.check(c); err != nil {
+		o.Panic = "checker: " + err.Error()
+		return
+	}
+	s, si := &seen{}, &seen{} // what the handler saw; what the server interceptor saw (callctx.go)
 	desc := service(s, c.Tag)
 	var cc grpc.ClientConnInterface
 	var crt *countRT
@@ -633,9 +657,10 @@ func runCtx(e *env, c caseT, base context.Context, tgs []*targetSet) (o obsT) {
 	case "inproc":
 		ch := &inprocgrpc.Channel{}
 		ch.RegisterService(desc, common.Impl{})
+		c.Call.inproc(ch, si)
 		cc = ch
 	case "http-rt":
-		srv := httpgrpc.NewServer()
+		srv := httpgrpc.NewServer(c.Call.httpServerOpts(si)...)
 		srv.RegisterService(desc, common.Impl{})
 		crt = &countRT{inner: common.HandlerRT(http.HandlerFunc(func(w http.ResponseWriter, r *http.Request) {
 			e.mu.Lock()
@@ -651,7 +676,7 @@ func runCtx(e *env, c caseT, base context.Context, tgs []*targetSet) (o obsT) {
 		o.setWant(u)
 		cc = &httpgrpc.Channel{Transport: crt, BaseURL: u}
 	case "http-loopback", "https", "https-h2":
-		srv := httpgrpc.NewServer()
+		srv := httpgrpc.NewServer(c.Call.httpServerOpts(si)...)
 		srv.RegisterService(desc, common.Impl{})
 		e.mu.Lock()
 		e.cur = front(srv)
@@ -720,7 +745,7 @@ func runCtx(e *env, c caseT, base context.Context, tgs []*targetSet) (o obsT) {
 			bl := bufconn.Listen(1 << 16)
 			lis, dial = bl, bl.DialContext
 		}
-		gs := grpc.NewServer()
+		gs := grpc.NewServer(c.Call.grpcServerOpts(si)...)
 		gs.RegisterService(desc, common.Impl{})
 		go gs.Serve(lis)
 		// the reference for interceptor-supplied options: the same interceptor
@@ -757,6 +782,8 @@ func runCtx(e *env, c caseT, base context.Context, tgs []*targetSet) (o obsT) {
 	}
 	ctx, cancel := context.WithCancel(base)
 	defer cancel()
+	ctx, cancelDeadline := c.Call.with(ctx) // the caller's deadline, if the case has one (callctx.go)
+	defer cancelDeadline()
 	var opts []grpc.CallOption
 	var cr *cred
 	var pr peer.Peer
@@ -836,7 +863,11 @@ func runCtx(e *env, c caseT, base context.Context, tgs []*targetSet) (o obsT) {
 	}
 	s.mu.Lock()
 	o.HandlerRan, o.HandlerMD, o.HPeerOK, o.HPeerAddr, o.HPeerAuth, o.hPeerNil = s.n, s.md, s.peerOK, s.addr, s.auth, s.addrNil
+	o.HDeadline = s.dl
 	s.mu.Unlock()
+	si.mu.Lock()
+	o.IRan, o.IPeerOK, o.IPeerAddr, o.IPeerAuth, o.iPeerNil = si.n, si.peerOK, si.addr, si.auth, si.addrNil
+	si.mu.Unlock()
 	e.mu.Lock()
 	o.Remote, o.serverConn = e.lastRemote, e.lastConn
 	e.mu.Unlock()
@@ -1090,6 +1121,7 @@ func check0(c caseT, o obsT) (fs []finding) {
 		}
 		fs = append(fs, f)
 	}
+	fs = append(fs, interceptorPeerFindings(c, o)...) // callctx.go
 
 	fs = append(fs, peerOptFindings(c, o, "")...)
 	return fs
@@ -1687,8 +1719,30 @@ func main() {
 		fmt.Fprintln(os.Stderr, "INCONCLUSIVE: oracle calibration:", err)
 		os.Exit(2)
 	}
+	calibratedCallCtx, err := calibrateCallCtx()
+	if err != nil {
+		fmt.Fprintln(os.Stderr, "INCONCLUSIVE: oracle calibration:", err)
+		os.Exit(2)
+	}
 	connCompared = 0
 	refRuns := 0
+	if rep.Tier == "thorough" {
+		// the call context (deadline, metadata, server interceptor): grpc-go's peers
+		for _, c := range callCtxCases("thorough", true) {
+			o := guarded(e, c)
+			refRuns++
+			if c.Call.Interceptor && o.IRan != 1 {
+				fmt.Fprintf(os.Stderr, "INCONCLUSIVE: grpc-go reference %+v (%v): the server interceptor ran %d time(s)\n", c, c.Call, o.IRan)
+				os.Exit(2)
+			}
+			for _, f := range check(c, o) {
+				if f.fail != "" {
+					fmt.Fprintf(os.Stderr, "INCONCLUSIVE: the oracle rejects grpc-go's own behaviour on %+v (%v): %s %s: %s\n", c, c.Call, f.clause, f.fail, f.detail)
+					os.Exit(2)
+				}
+			}
+		}
+	}
 	if rep.Tier == "thorough" {
 		// a server on a Unix-domain socket: grpc-go's handler peer
 		for _, c := range arriveCases("thorough", true) {
@@ -1962,6 +2016,36 @@ func main() {
 		sort.Strings(shapesSeen[sh])
 	}
 
+	// the context of the call: deadline, metadata, who reads the peer (callctx.go)
+	callG := newGrouper(callCtxDimNames) // scope: the clause
+	nCall, callDeadlineReached, callInterceptorRead, callTLS := 0, map[string]bool{}, map[string]bool{}, 0
+	for _, c := range callCtxCases(rep.Tier, false) {
+		o := guarded(e, c)
+		evals++
+		nCall++
+		k := fmt.Sprintf("%+v %+v", c, *c.Call)
+		if c.Call.Deadline != "" && o.HandlerRan > 0 && o.HDeadline {
+			// the deadline travelled: the handler's context was made from it
+			callDeadlineReached[k], distinct[k] = true, true
+			if c.connTLS() {
+				callTLS++
+			}
+			if c.Call.Interceptor && o.IRan > 0 {
+				callInterceptorRead[k] = true
+			}
+		}
+		for _, f := range check(c, o) {
+			clauseCount[f.clause]++
+			callG.add("callctx|"+f.clause, callCtxDims(c), f, c)
+		}
+		sk := "callctx|" + c.Transport
+		if !sampled[sk] && c.Op == "bidi" && c.Creds == "both" && c.Call.Deadline != "" && c.Call.Interceptor {
+			sampled[sk] = true
+			samples = append(samples, map[string]interface{}{"case": c, "observed": o})
+		}
+	}
+	callG.report(rep, "C13|", " for every deadline / metadata / reader of the peer / transport / kind the clause applies to")
+
 	// sequences of calls sharing the caller's context
 	nSeq, nSeqCalls, nKeyCaseSeq := 0, 0, 0
 	keyCaseSeq := newGrouper([]string{"call", "earlier-cred-key", "cred-key", "caller-key", "key-relation", "caller-build", "caller-vals"}) // scope transport
@@ -2060,6 +2144,7 @@ func main() {
 			"Plus the base URL's SCHEME: {http, https, HTTP, Https, h2c, http+unix, ws, empty} as a url.URL literal x RoundTripper accepting it {custom RoundTripper serving in memory, stock http.Transport with the scheme registered by RegisterProtocol, RoundTripper forwarding https requests to the TLS loopback server and all others in the clear to the plain one} x host {IPv4:port, IPv4 without port} x every op x every credential x caller metadata x peer option; plus the alphabet swept around interceptor-supplied credentials (custom RoundTripper, one wrapper adding credentials + peer, caller passing nothing / everything, require or not, every op). Oracle: scheme https carries everything; every scheme that is not https in any spelling (HTTP and the empty one included) refuses credentials requiring security with zero requests handed to the RoundTripper and carries all other calls; Https (https in another case) may refuse (the statement read literally, what the library does) or carry (RFC 3986: schemes are case-insensitive, net/http speaks TLS for it). Peer clauses as everywhere; the in-memory RoundTrippers have no TLS whatever the URL says, so no TLS info may be reported there. " +
 			"Plus SEVERAL grpc.PerRPCCredentials options in one call, EACH WITH PROPERTIES OF ITS OWN: option lists [caller, caller2] (the caller passes two, no wrapper), [caller, L1], [L1, L2], [caller, L1, L2]" + map[bool]string{true: ", the same with the interceptors' options in front, a wrapper installed for the kind of the call only, [caller, caller2, L1]", false: ""}[rep.Tier == "thorough"] + " x every assignment of (metadata kind from {one: the key tok all credentials share, own: a key only this credential has, empty map, error}, requires security or not) to every position" + map[bool]string{true: "", false: " (lists of three: kinds {one, own})"}[rep.Tier == "thorough"] + " x every transport x every op x caller metadata {absent, present}; plus the scheme alphabet around [caller, caller2] with the requirement on the first only / the second only. Oracle: the last option of the list is in effect (grpc-go; thorough requires the oracle to accept grpc-go on this grammar) and the single-call clauses are asked of it (requires security and the URL is not https: fails before any request; its error fails the call; else its metadata reaches the handler merged with the caller's); of a credential NOT in effect that requires security, on a URL that is not https, no metadata value may be handed to the RoundTripper or reach the handler (clause " + clauseNotInEffect + "); refusing such a call before any request, or failing a call because a credential not in effect returned an error, conforms as well. " +
 			"Plus WHERE THE REQUEST COMES FROM as the HTTP server sees it: Request.RemoteAddr of the shapes {IPv4:port (what every other case has), bare IPv4, bare IPv6, [IPv6]:port, name:port, \"@\" (client of a Unix-domain socket), empty" + map[bool]string{true: ", [IPv6%zone]:port, bare name, a socket path, \"pipe\"", false: ""}[rep.Tier == "thorough"] + "} set by a middleware in front of the httpgrpc handler (as 'real IP' middlewares and PROXY-protocol listeners do), or left as the listener {loopback TCP, Unix-domain socket} reported it" + map[bool]string{true: ", or set by the middleware behind the Unix-domain listener", false: ""}[rep.Tier == "thorough"] + "; x {in-memory RoundTripper (middleware only), http loopback, https loopback" + map[bool]string{true: ", https with HTTP/2", false: ""}[rep.Tier == "thorough"] + "} x every op x {no credentials, credentials with metadata} with caller metadata and the peer option. Oracle: all single-call clauses; the handler's peer is present and its address says what the HTTP server knows as the remote address (the same string, or the same IP and port spelled differently, or a bare IP with any port); TLS info whenever the connection is TLS, whatever RemoteAddr looks like; with an empty RemoteAddr (the HTTP server knows no remote address) only the TLS clause is asked. thorough also runs grpc-go with its server on a Unix-domain socket through the same clauses. " +
+			"Plus THE CONTEXT OF THE CALL: the caller's context {without a deadline (what every other case has), with a deadline in 30 s" + map[bool]string{true: ", in 2 h", false: ""}[rep.Tier == "thorough"] + "} (with one the HTTP client sends GRPC-Timeout and the server derives the handler's context from a timeout) x metadata travelling with the call {none, caller's outgoing metadata, caller's and a credential's" + map[bool]string{true: ", a credential's only", false: ""}[rep.Tier == "thorough"] + "} x who reads the peer {the handler, a server interceptor of the call's kind in front of it as well} x {in-process, in-memory RoundTripper, http loopback, https loopback" + map[bool]string{true: ", https with HTTP/2", false: ""}[rep.Tier == "thorough"] + "} x every op, peer option passed. Oracle: all single-call clauses: in every member the handler's peer is present with the remote address (over HTTP: Request.RemoteAddr as the HTTP server saw it) and TLS info on TLS; the same is asked of the peer the server interceptor finds on the context the library hands it (it runs as part of handling the call; grpc-go, run through the same clauses by thorough, gives it the handler's context). Nothing is demanded of the deadline itself. " +
 			"A case is non-trivial when the credential object was actually consulted (its RequireTransportSecurity/GetRequestMetadata call counters are > 0), or the grpc.Peer target was written, or the connection was TLS (so the TLS-info clause of the handler's peer applies); distinct by all case parameters.",
 		"clause_evaluations":          clauseCount,
 		"sequences":                   nSeq,
@@ -2112,6 +2197,14 @@ func main() {
 			"remote_addr_shape_seen_set_by": shapesSeen,
 			"rule":                          "distinct cases of the arrival grammar in which the handler ran and the RemoteAddr the HTTP side recorded right before the httpgrpc handler is the one of the case (the middleware's literal, or whatever the listener reported), i.e. the handler's peer was derived from a request of that shape; remote_addr_shape_seen_set_by: per shape (of the literal, or classified from the observed listener value) who set it",
 			"oracle_calibration_cases":      calibratedArrive,
+		},
+		"call_context": map[string]interface{}{
+			"cases":                             nCall,
+			"distinct_deadline_reached_handler": len(callDeadlineReached),
+			"of_those_on_tls":                   callTLS,
+			"of_those_read_by_server_interceptor_too": len(callInterceptorRead),
+			"rule":                     "distinct cases of the call-context grammar with a deadline in which the handler ran on a context that has a deadline, i.e. the deadline travelled with the call (GRPC-Timeout over HTTP) and the handler's context, where the peer is looked for, was built on the deadline path; of those, on a TLS connection; of those, with the server interceptor having run and read the peer as well",
+			"oracle_calibration_cases": calibratedCallCtx,
 		},
 		"oracle_calibration_cases_suppliers_and_schemes": calibratedSupply,
 		"tls_info_connection_identity_compared":          connCompared,
